@@ -96,7 +96,7 @@ func applyDiff(n *sbom.Node, d *sbom.NodeDiff) *sbom.Node {
 func genC14Pair(t *rapid.T) (*sbom.Node, *sbom.Node, string) {
 	text := textNoMeta()
 	n := genC13Node(t, "n", text)
-	mode := rapid.SampledFrom([]string{"same", "1", "2", "5", "independent", "perm", "empty_vs_absent", "duplicates"}).Draw(t, "mode")
+	mode := rapid.SampledFrom([]string{"same", "1", "2", "5", "independent", "perm", "empty_vs_absent", "duplicates", "duplicates_first", "dup_then_replace"}).Draw(t, "mode")
 	var n2 *sbom.Node
 	mutate := func(k int) {
 		n2 = proto.Clone(n).(*sbom.Node)
@@ -135,6 +135,43 @@ func genC14Pair(t *rapid.T) (*sbom.Node, *sbom.Node, string) {
 			if len(e.Hashes) == 0 {
 				e.Hashes, n.ExternalReferences[i].Hashes = map[int32]string{}, nil
 			}
+		}
+	case "duplicates_first", "dup_then_replace":
+		// the FIRST node carries repeated elements; the second drops the repetition or replaces one copy by a
+		// new element (same length, nothing removed as a set)
+		if len(n.Licenses) == 0 {
+			n.Licenses = []string{"MIT"}
+		}
+		if len(n.Suppliers) == 0 {
+			n.Suppliers = []*sbom.Person{{Name: "acme", IsOrg: true}}
+		}
+		if len(n.ExternalReferences) == 0 {
+			n.ExternalReferences = []*sbom.ExternalReference{{Url: "http://e.x/a", Type: sbom.ExternalReference_VCS}}
+		}
+		n.Licenses = append(n.Licenses, n.Licenses[0])
+		n.Suppliers = append(n.Suppliers, proto.Clone(n.Suppliers[0]).(*sbom.Person))
+		n.Originators = append(n.Originators, &sbom.Person{Name: "o"}, &sbom.Person{Name: "o"})
+		n.ExternalReferences = append(n.ExternalReferences, proto.Clone(n.ExternalReferences[0]).(*sbom.ExternalReference))
+		n.FileTypes = append(n.FileTypes, "TEXT", "TEXT")
+		n2 = proto.Clone(n).(*sbom.Node)
+		if mode == "dup_then_replace" {
+			which := rapid.IntRange(0, 4).Draw(t, "which")
+			switch which {
+			case 0:
+				n2.Licenses[len(n2.Licenses)-1] = "NEW-LICENSE"
+			case 1:
+				n2.Suppliers[len(n2.Suppliers)-1] = &sbom.Person{Name: "initech"}
+			case 2:
+				n2.Originators[len(n2.Originators)-1] = &sbom.Person{Name: "other", Email: "o@x"}
+			case 3:
+				n2.ExternalReferences[len(n2.ExternalReferences)-1] = &sbom.ExternalReference{Url: "http://new", Type: sbom.ExternalReference_WEBSITE}
+			case 4:
+				n2.FileTypes[len(n2.FileTypes)-1] = "BINARY"
+			}
+		} else {
+			n2.Licenses = n2.Licenses[:len(n2.Licenses)-1]
+			n2.Suppliers = n2.Suppliers[:len(n2.Suppliers)-1]
+			n2.ExternalReferences = n2.ExternalReferences[:len(n2.ExternalReferences)-1]
 		}
 	case "duplicates":
 		n2 = proto.Clone(n).(*sbom.Node)
